@@ -177,3 +177,28 @@ Definition C07_rcs (ls : list line) (d : doc) : list rc := rc_doc env0 d ++ flat
 (** the proved domain: no root cause present *)
 Definition C07_dom (ls : list line) (d : doc) : bool :=
   match C07_rcs ls d with [] => true | _ => false end.
+
+(** ** the additional restrictions of the partial theorem [C07_partial] *)
+
+(** lines on which [_clean_line] is PROVED right (the remaining
+    case -- a string literal and a comment, or blank-# inside a literal, on one
+    line -- is covered by the correspondence check only) *)
+Definition line_simple (l : line) : bool :=
+  match l with
+  | LToks _ toks cmt =>
+    match lexes (map fst toks) with
+    | [] => match cmt with Some t => negb (contains (Str """") t) | None => true end
+    | ls => negb (is_some cmt) && negb (existsb hash_in ls)
+    end
+  | LDir _ _ _ cmt => match cmt with Some t => negb (contains (Str """") t) | None => true end
+  end.
+
+
+(** directives first, then statement groups *)
+Fixpoint groups_only (d : doc) : bool :=
+  match d with [] => true | IGrp _ :: d' => groups_only d' | IDir _ :: _ => false end.
+Fixpoint prologue_form (d : doc) : bool :=
+  match d with [] => true | IDir _ :: d' => prologue_form d' | IGrp _ :: d' => groups_only d' end.
+
+Definition C07_partial_dom (ls : list line) (d : doc) : bool :=
+  C07_dom ls d && forallb line_simple ls && prologue_form d.
